@@ -146,6 +146,26 @@ CHECKS = {
   "design_ref": "DESIGN.md §5 C14", "note": "Trusted: Lean kernel; translator facts; kernel isolation between instances is measured.",
   "technique": "Lean 4 proofs (channel FIFO by induction) + regenerated capacity/global-state facts + multi-Watcher differential scenarios",
  },
+ "C17": {
+  "text": "Theorems over the kqueue bookkeeping model: in every state reachable by successful adds (kernel-fresh descriptors) "
+          "and removals, the descriptors opened for watches and not yet closed are exactly the wd-table keys, every entry is "
+          "listed under its own name; removing a path closes exactly its descriptor and unlists it; Close leaves no "
+          "descriptor open (induction over the path list; F4 repaired - the pre-repair Close is shown to release nothing); "
+          "WatchList is the user-added set. Tie: the real backend_kqueue.go compiled on Linux against a simulated kqueue "
+          "over REAL descriptors; Lean invariant evaluated on implementation snapshots after every step + Go-side "
+          "descriptor accounting. Partial twice: simulated kernel; no real BSD/macOS available.",
+  "design_ref": "DESIGN.md §5 C17/C18, §6 F4 F7", "note": "Trusted: Lean kernel; kqsim (simulation of kqueue and of FreeBSD's vnode notifications); scratch-copy mechanism (build tag + import paths rewritten).",
+  "technique": "Lean 4 invariant proof over the bookkeeping model + invariant evaluation on snapshots of the real backend running on a simulated kqueue",
+ },
+ "C18": {
+  "text": "Theorems over the model of the seen-set logic: dirChange reports exactly the listed entries not yet seen, under "
+          "dir/entry; entries marked at Add time are never reported; a second change with the same listing reports nothing "
+          "(Create once); after the Remove notification un-marks a name the next listing reports it again. Tie: as C17, with "
+          "an event oracle per step (Create once per new entry, Write/Chmod/Remove/Rename named under the user's spelling, "
+          "overwrite-by-rename = Remove+Create, nothing for pre-existing entries incl. FIFOs - F7a repaired).",
+  "design_ref": "DESIGN.md §5 C17/C18, §6 F7", "note": "As C17.",
+  "technique": "Lean 4 proofs over the seen-set model + per-step event oracle on the real backend running on a simulated kqueue",
+ },
  "C19": {
   "text": "Theorems over the model of the recursive tail of handleEvent / recursive removePath (after the repair of F3): a "
           "rename old->new rewrites exactly the entries at or below old (separator-aware) to new++suffix, keeps all wds, "
